@@ -28,6 +28,75 @@ class _EqHooks(FormulaHooks):
             fi.owner is not None)
 
 
+def _prints_field(prog, ci, field, cache={}):
+    """every returning path of the MRO-resolved __str__ of `ci` gives the
+    text of self.<field> and nothing else"""
+    k = (id(prog), ci.qn, field)
+    if k in cache:
+        return cache[k]
+    cache[k] = False
+    f = prog.method(ci, '__str__')
+    if f is None:
+        return False
+    from ..printers import FormulaHooks
+    I = Interp(prog, FormulaHooks(prog, check_sorts=False), rule='R-EQ-1')
+    path = I.new_path()
+    me = Sym('self', ('inst', ci))
+    try:
+        res = I.call_function(FRef(f), [me], [], path, f.node)
+    except Inconclusive:
+        return False
+    res = [(p, v) for (p, v) in res if not isinstance(v, Raise)]
+    fld = App('attr', me, Const(field))
+    ok = bool(res)
+    for (p, v) in res:
+        v = I.snapshot(v, p)
+        if v in (fld, App('str', fld)):
+            continue
+        if isinstance(v, App) and v.op == 'fmt' and \
+                v.args[1] in (Const('{}'), Const('%s')) and \
+                list(v.args[2].items) in ([fld], [App('str', fld)]):
+            continue
+        ok = False
+    cache[k] = ok
+    return ok
+
+
+def _field_compare_is_print_compare(prog, ci, p, v, me, other):
+    """path value `self.X == other.X` under isinstance(other, C) [and not
+    isinstance(other, D)..]: equivalent to str(self) == str(other) when the
+    printed form of self's class and of every formula class the guard admits
+    is exactly the field X"""
+    if not (isinstance(v, App) and v.op == 'cmp' and v.args[0] == Const('==')
+            and isinstance(v.args[1], App) and v.args[1].op == 'attr' and
+            isinstance(v.args[2], App) and v.args[2].op == 'attr'):
+        return False
+    a, b = v.args[1], v.args[2]
+    if {a.args[0], b.args[0]} != {me, other} or a.args[1] != b.args[1]:
+        return False
+    field = a.args[1].v
+    pos, neg = [], []
+    for (c, pol) in p.pc:
+        if isinstance(c, App) and c.op == 'isinstance' and \
+                c.args[0] == other and isinstance(c.args[1], CRef):
+            (pos if pol else neg).append(c.args[1].ci)
+        elif isinstance(c, App) and c.op == 'implicit_exc':
+            continue
+        else:
+            return False
+    pos = [c for c in pos if isinstance(c, ClassInfo)]
+    if not pos or any(not isinstance(c, ClassInfo) for c in neg):
+        return False
+    base = prog.cls('language.Formula')
+    admitted = [S for S in prog.classes.values()
+                if S.is_subclass_of(base) and
+                all(S.is_subclass_of(c) for c in pos) and
+                not any(S.is_subclass_of(d) for d in neg)]
+    if not admitted or not _prints_field(prog, ci, field):
+        return False
+    return all(_prints_field(prog, S, field) for S in admitted)
+
+
 def classify_eq(prog, ci):
     """-> ('str-key',) | ('bool-value',) | ('other', repr)"""
     f = prog.method(ci, '__eq__')
@@ -42,6 +111,13 @@ def classify_eq(prog, ci):
     vals = [v for (p, v) in res]
     strkey = App('cmp', Const('=='), App('str', me), App('str', other))
     if len(vals) == 1 and vals[0] == strkey:
+        return ('str-key',), f
+    if len(vals) > 1 and all(
+            v == strkey or _field_compare_is_print_compare(prog, ci, p, v,
+                                                           me, other)
+            for (p, v) in res):
+        # a branch that compares the one field the printed form consists of
+        # (for every class the branch admits) is the same comparison
         return ('str-key',), f
     # Bool: value comparison against bool and against Bool, False otherwise
     kinds = set()
@@ -484,17 +560,24 @@ def _guarded_other_reads(fnode):
 
     def isinst(test):
         """class expr when `test` (or a conjunct of it) is
-        isinstance(other, C)"""
+        isinstance(other, C); a conjunction that also excludes classes
+        (`and not isinstance(other, D)`) or tests anything else about
+        `other` is not a guard this rule reads (None)"""
         if isinstance(test, ast.Call) and isinstance(test.func, ast.Name) \
                 and test.func.id == 'isinstance' and len(test.args) == 2 and \
                 isinstance(test.args[0], ast.Name) and \
                 test.args[0].id == other and not test.keywords:
             return test.args[1]
         if isinstance(test, ast.BoolOp) and isinstance(test.op, ast.And):
+            found = None
             for v in test.values:
                 c = isinst(v)
-                if c is not None:
-                    return c
+                if c is not None and found is None:
+                    found = c
+                elif any(isinstance(n, ast.Name) and n.id == other
+                         for n in ast.walk(v)):
+                    return None     # a further condition on `other`
+            return found
         return None
 
     def neg_isinst(test):
@@ -523,6 +606,8 @@ def _guarded_other_reads(fnode):
                 c = isinst(v)
                 if c is not None:
                     g = c
+                elif neg_isinst(v) is not None:
+                    g = None        # classes excluded: not a guard we read
             return
         if isinstance(e, ast.Attribute) and isinstance(e.ctx, ast.Load) and \
                 isinstance(e.value, ast.Name) and e.value.id == other:
@@ -646,10 +731,16 @@ def rule_eq5(prog):
         '        return self.n == o.n\n'
         '    except AttributeError:\n'
         '        return str(self) == str(o)\n').body[0]
+    neg2 = ast.parse(
+        'def __eq__(self, o):\n'
+        '    if isinstance(o, A) and not isinstance(o, B):\n'
+        '        return self.n == o.n\n'
+        '    return isinstance(o, A) and not isinstance(o, B) and \\\n'
+        '        self.n == o.n\n').body[0]
     got = sorted((a, ast.unparse(g)) for (a, g, n) in
                  _guarded_other_reads(pos))
     if got != [('k', 'B'), ('m', 'C'), ('n', 'A')] or \
-            _guarded_other_reads(neg):
+            _guarded_other_reads(neg) or _guarded_other_reads(neg2):
         raise Inconclusive('R-EQ-5', 'matcher self-test failed: %r' % (got,),
                            '')
     r.notes.append('matcher self-test: guarded reads of the positive '
